@@ -168,6 +168,7 @@ fn build(c: &Case, with_conditionals: bool) -> (EntitySpec, ReqSpec) {
         plan: vec![PStep::Chunk(16)],
         faults: vec![],
         tail: vec![],
+        segments: 0,
     };
     let mut req = ReqSpec::get().method(&c.method);
     if with_conditionals {
